@@ -49,9 +49,14 @@ def _child_verify(i):
     else:
         # the engine gave up: parameter keys are harvested from the string literals of the source instead
         out["fuzz_job"] = fuzz_job(c, res.fs, schema.SCHEMA, set(source_literals(res.fs, c)), {}, seed, 20)
+    if c.block is not None:
+        out["fuzz_job"] = None      # an extracted statement block is not callable natively
     for o in res.obligations:
         j = o.to_json()
-        if o.status in ("failed",) and o.model is not None:
+        if o.status in ("failed",) and o.model is not None and c.block is not None:
+            j["witness_error"] = "extracted statement block: the counter-model is reported, not replayed natively"
+            j["model_excerpt"] = str(o.model)[:6000]
+        elif o.status in ("failed",) and o.model is not None:
             try:
                 eng = res.engine
                 rf = Reifier(eng, o.model, eng.entry_state, o.state)
@@ -298,7 +303,9 @@ class PropertyRun:
                     with open(path, "w") as f:
                         json.dump({"obligation": o["name"], "contract": r["contract"], "target": r["target"],
                                    "note": "model could not be reified", "detail": o.get("detail"),
-                                   "witness_error": o.get("witness_error")}, f, indent=1)
+                                   "witness_error": o.get("witness_error"),
+                                   "verifier_output": {"status": o["status"], "path": o.get("detail"), "line": o.get("line"),
+                                                       "counter_model_excerpt": o.get("model_excerpt")}}, f, indent=1)
                 confirmed = bool(verdict and verdict.get("status") == "ok" and verdict.get("violated"))
                 fr = self._fuzzed.get(r["contract"])
                 if fr is not None:
@@ -436,8 +443,10 @@ class PropertyRun:
         if extra:
             evidence["coverage"].update(extra)
         evidence["coverage"].update(self.extra)
-        os.makedirs(os.path.join(ROOT, "evidence"), exist_ok=True)
-        with open(os.path.join(ROOT, "evidence", f"{self.pid}.json"), "w") as f:
+        # VERIF_EVIDENCE_DIR: development switch used when the checks are pointed at a deliberately changed scratch copy
+        evdir = os.environ.get("VERIF_EVIDENCE_DIR") or os.path.join(ROOT, "evidence")
+        os.makedirs(evdir, exist_ok=True)
+        with open(os.path.join(evdir, f"{self.pid}.json"), "w") as f:
             json.dump(evidence, f, indent=1, default=str)
         for k, ob in self.known:
             print(f"KNOWN-FINDING: property={self.pid} {k['text']}")
